@@ -21,6 +21,8 @@ class Entry:
     buffered: bool = False
     converter: Callable[[], Any] | None = None
     eq: Callable[[Any, Any], bool] = lambda a, b: a == b and type(a) is type(b) or a == b
+    # datagrams that the serializer's documented format excludes whatever its parser says (a token without a valid checksum)
+    excluded: Callable[[random.Random, Any], list[bytes]] | None = None
 
     def stream_protocol(self) -> Any:
         from easynetwork.protocol import StreamProtocol
@@ -36,6 +38,21 @@ class Entry:
         from easynetwork.protocol import DatagramProtocol
 
         return DatagramProtocol(self.make(), self.converter() if self.converter else None)
+
+
+def _unsigned_tokens(inner_make: Callable[[], Any], alphabet: str) -> Callable[[random.Random, Any], list[bytes]]:
+    """Base64EncoderSerializer(checksum=...): tokens that carry a document the wrapped serializer accepts but no valid digest."""
+
+    def f(rng: random.Random, packet: Any) -> list[bytes]:
+        import base64
+
+        enc = base64.standard_b64encode if alphabet == "standard" else base64.urlsafe_b64encode
+        inner = inner_make()
+        body = inner.serialize(packet)
+        small = inner.serialize(rng.choice([0, 7, True, None, "a", [], {}]))
+        return [enc(small), enc(body[:31]), enc(body), enc(small + bytes(32)), enc(small + bytes(rng.randrange(256) for _ in range(rng.randint(1, 31 - min(len(small), 30)))))]
+
+    return f
 
 
 def _text(rng: random.Random, lo: int = 1, hi: int = 12, alphabet: str = string.ascii_letters + " ") -> str:
@@ -290,8 +307,8 @@ def entries() -> list[Entry]:
         Entry("FileBasedPacketSerializer(subclass)", LengthPrefixed, gen_bytes(0, 20), buffered=True),
         Entry("AbstractIncrementalPacketSerializer(subclass, default one-shot methods)", TLV, lambda rng: _text(rng, 0, 12, string.ascii_letters + "é"), buffered=False),
         Entry("Base64(JSON)", lambda: Base64EncoderSerializer(JSONSerializer()), _json_value, buffered=True),
-        Entry("Base64(pickle,checksum,standard)", lambda: Base64EncoderSerializer(PickleSerializer(unpickler_cls=_PyUnpickler), alphabet="standard", checksum=True), _json_value, buffered=True),
-        Entry("Base64(JSON,checksum=key)", lambda: Base64EncoderSerializer(JSONSerializer(), checksum=__import__("base64").urlsafe_b64encode(b"k" * 32)), _json_value, buffered=True),
+        Entry("Base64(pickle,checksum,standard)", lambda: Base64EncoderSerializer(PickleSerializer(unpickler_cls=_PyUnpickler), alphabet="standard", checksum=True), _json_value, buffered=True, excluded=_unsigned_tokens(lambda: PickleSerializer(unpickler_cls=_PyUnpickler), "standard")),
+        Entry("Base64(JSON,checksum=key)", lambda: Base64EncoderSerializer(JSONSerializer(), checksum=__import__("base64").urlsafe_b64encode(b"k" * 32)), _json_value, buffered=True, excluded=_unsigned_tokens(lambda: JSONSerializer(), "urlsafe")),
         Entry("Zlib(JSON)", lambda: ZlibCompressorSerializer(JSONSerializer()), _json_value, buffered=True),
         Entry("Zlib(pickle,level1)", lambda: ZlibCompressorSerializer(PickleSerializer(unpickler_cls=_PyUnpickler), compress_level=1), _json_value, buffered=True),
         Entry("BZ2(JSON)", lambda: BZ2CompressorSerializer(JSONSerializer()), _json_value, buffered=True),
